@@ -10,6 +10,7 @@ package c20
 import (
 	"fmt"
 	"hash/fnv"
+	"os"
 	"testing"
 	"time"
 
@@ -97,7 +98,7 @@ func (m *model) hash() uint64 {
 	for _, e := range m.ready {
 		fmt.Fprintf(f, "r%d,", e.h)
 	}
-	for h := 0; h < 8; h++ {
+	for h := 0; h < 64; h++ {
 		if m.inflight[h] {
 			fmt.Fprintf(f, "i%d,", h)
 		}
@@ -115,7 +116,7 @@ func (m *model) String() string {
 	}
 	s += "] inflight=["
 	first := true
-	for h := 0; h < 8; h++ {
+	for h := 0; h < 64; h++ {
 		if m.inflight[h] {
 			if !first {
 				s += " "
@@ -131,7 +132,7 @@ func (m *model) String() string {
 
 type world struct {
 	s      *simrt.Sim
-	q      *announcequeue.QueueImpl
+	q      announcequeue.Queue
 	m      *model
 	hashes []core.InfoHash
 	idx    map[core.InfoHash]int
@@ -184,6 +185,11 @@ func (w *world) eject(h int) {
 
 // next performs Next on the real queue and judges the answer.
 func (w *world) next() (int, bool) {
+	r, _, ok := w.nextHash()
+	return r, ok
+}
+
+func (w *world) nextHash() (int, core.InfoHash, bool) {
 	w.ops++
 	m := w.m
 	ih, ok := w.q.Next()
@@ -193,7 +199,7 @@ func (w *world) next() (int, bool) {
 			w.s.Fail("ready_not_served", "Next returned nothing although h%d is waiting; model %v; history:%s", m.ready[0].h, m, w.tail())
 		}
 		w.s.Probe("next_empty")
-		return -1, false
+		return -1, ih, false
 	}
 	r, known := w.idx[ih]
 	if !known {
@@ -219,7 +225,7 @@ func (w *world) next() (int, bool) {
 	m.ready = append(m.ready[:i:i], m.ready[i+1:]...)
 	m.inflight[r] = true
 	w.s.Probe("next_hit")
-	return r, true
+	return r, ih, true
 }
 
 // drain empties the real queue at the end of a history: everything the model
@@ -342,6 +348,12 @@ func schedulerShaped(w *world, nOps int, disciplined bool) {
 }
 
 func body(s *simrt.Sim, tier string) {
+	// One run in 64 observes the queue inside running schedulers (workload
+	// variants are out of band: simrt.Tape.Variant).
+	if s.Tape.Variant%64 == 7 || os.Getenv("KSIM_C20_MODE") == "invivo" {
+		invivo(s, tier)
+		return
+	}
 	tp := s.Tape
 	n := 4 + tp.Draw(3)
 	w := &world{s: s, q: announcequeue.New(), m: &model{inflight: map[int]bool{}}, idx: map[core.InfoHash]int{}}
